@@ -90,13 +90,18 @@ def read_doc(text):
     table = [UA] + uris
 
     def res(text_):
-        m = text_.strip()
-        if m.startswith("ns="):
-            k, rest = m[3:].split(";", 1)
-            k = int(k)
-        else:
-            k, rest = 0, m
-        t, ident = rest.split("=", 1)
+        """a NodeId text of the document -> [uri, type, identifier]; anything that is not a NodeId text is kept as
+        an unresolvable identifier (so that it shows up as a difference, not as a reader failure)"""
+        m = (text_ or "").strip()
+        try:
+            if m.startswith("ns="):
+                k, rest = m[3:].split(";", 1)
+                k = int(k)
+            else:
+                k, rest = 0, m
+            t, ident = rest.split("=", 1)
+        except ValueError:
+            return ["<not a NodeId text>", "", m]
         return [table[k] if 0 <= k < len(table) else "<undeclared index %d>" % k, t, ident]
     models = []
     for ms in root.findall(X + "Models"):
@@ -126,7 +131,7 @@ def read_doc(text):
         refs = []
         for rs in e.findall(X + "References"):
             for r in rs.findall(X + "Reference"):
-                other = res(aliases.get(r.text.strip(), r.text))
+                other = res(aliases.get((r.text or "").strip(), r.text))
                 ty = res(aliases.get(r.get("ReferenceType"), r.get("ReferenceType")))
                 refs.append([nid, other, ty] if r.get("IsForward", "true") != "false" else [other, nid, ty])
         val = e.find(X + "Value")
